@@ -192,6 +192,31 @@ CHECKS['C15'] = dict(
    note='schedules sampled; priority_queue_node, buffer_node reservation, overwrite / write_once, split and indexer nodes are not driven yet; item_buffer ring arithmetic is exercised through queue / sequencer only',
    technique='TLA+ protocol model (Limiter) checked by TLC + TLC trace validation of recorded executions of real flow-graph nodes against FlowAbs',
    design='4 (C15)')
+CHECKS['C17'] = dict(
+   text='TLC checks SizeClass (transcription of getSmallObjectIndex / getIndexOrObjectSize) for every request size 1..8128: object size >= request, bins and sizes monotone, one '
+        'size per bin, 8-byte alignment for requests <= 8 bytes and 16-byte alignment beyond, bin index in range; and model-checks SlabBlock (one slab with 3 objects: owner malloc / '
+        'free, 1-2 foreign threads freeing through the public free list CAS, first freer links the slab into the owner\'s mailbox under mailLock, owner privatises by exchange, thread '
+        'exit -> shareOrphaned with the UNUSABLE marker and the wait for an in-flight freer, adoption by a foreign thread) at shared-access granularity: an object is never in two of '
+        '{allocated, private free list, public free list, bump area}, never handed out twice, none lost, allocatedCount exact at quiescence, one adopter. The tbbmalloc sources are '
+        'compiled into the harness with the instrumentation prelude (every atomic and every MallocMutex is a schedule point): the (bin, object size) table of the real functions, and '
+        'seeded random sequences of scalable_malloc / calloc / realloc / aligned_malloc / aligned_realloc / posix_memalign / free / msize / allocation commands (sizes on every class '
+        'boundary up to 8.5 MB, alignments to 1 MiB, frees by other threads, a thread that exits early with live blocks) on 1-4 logical threads under random / PCT cooperative schedules '
+        'are validated by TLC against the size-class properties and HeapAbs (returned block overlaps no live block, alignment, msize, calloc zero, realloc prefix, fill pattern intact, '
+        'reuse only after the free call began).',
+   note='API sequences and schedules sampled; the SlabBlock model is bound to the code through the abstract histories only (no step replay); metadata overlap is visible only through fill patterns; addresses are compared as order-preserving ranks',
+   technique='TLA+ function specification + PlusCal protocol model checked by TLC + TLC trace validation of recorded executions of the real allocator against HeapAbs',
+   design='4 (C17)')
+CHECKS['C18'] = dict(
+   text='PoolAbs specifies, over rank-compressed addresses: every pool block lies inside a region obtained from that pool\'s own raw allocator and overlaps no live block of the pool, '
+        'pool_identify names the owner, a fixed pool calls its raw allocator once, a region is returned exactly once and never while a live block lies in it, nothing is left after '
+        'pool_destroy; a request that cannot be served is reported as a failure, all live blocks keep their fill pattern, and a later request succeeds once memory is available. Seeded '
+        'random operation sequences on two real memory pools with instrumented raw callbacks (plain, fixed, and with a run of failing raw allocations starting at a seed-chosen call '
+        'index), the default pool with a window of failing OS mappings (mmap seam of the white-box build, each case in a fresh process) and 16 unrepresentable size / alignment '
+        'requests on malloc / calloc / aligned_malloc / posix_memalign / realloc / aligned_realloc are validated by TLC (TracePool); the check fails as a harness failure if no '
+        'injected failure was reached (vacuity).',
+   note='fault positions sampled (runs of consecutive failures at random indices), not all subsets; single-threaded pool sequences; C++ wrappers (memory_pool, memory_pool_allocator throwing bad_alloc) are not driven',
+   technique='TLA+ abstract specification + TLC trace validation of recorded executions of real memory pools and of the default pool under injected allocation failures',
+   design='4 (C18)')
 REASON_PENDING = 'check not built yet in this round (planned in DESIGN.md section 4); no verdict is claimed'
 m = {
  'version': 1,
